@@ -1,6 +1,7 @@
 package main
 
 import (
+	"fmt"
 	"go/token"
 	"go/types"
 	"math/big"
@@ -391,61 +392,93 @@ func init() {
 		modelMods[name] = noMods
 	}
 
-	// ---------------- sync/atomic (typed): a cell at field 'v' of the receiver
-	atomicTypes := []struct {
-		name string
-		t    types.Type
-	}{{"Uint64", tUint64}, {"Int64", tInt64}, {"Uint32", tUint32}, {"Int32", types.Typ[types.Int32]}, {"Uintptr", tUPtr}, {"Bool", tBool}}
-	for _, at := range atomicTypes {
-		at := at
-		fam := "A|" + at.name
-		srt := func(g *Gen) Sort { return arrSort(SBV64, g.W.scalarSort(at.t)) }
-		mods := func(p *Program, ms *modSet, c *ssa.CallCommon) {
-			ms.names[fam] = arrSort(SBV64, p.W.scalarSort(at.t))
-		}
-		get := func(f *Frame, ref string) string { return sSel(f.g.heapGet(f.curState, fam, srt(f.g)), ref) }
-		set := func(f *Frame, ref, v string, pos token.Pos) {
-			for _, sc := range f.activeMods() {
-				if f.g.specMode == 0 {
-					f.oblige("modifies", f.g.matchLoc(sc, fam, ref), pos, "atomic store within "+sc.what)
+	// ---------------- sync/atomic (typed): the value is the struct's own field "v" (so fresh objects start at zero)
+	atomicNames := []string{"Uint64", "Int64", "Uint32", "Int32", "Uintptr", "Bool"}
+	for _, an := range atomicNames {
+		an := an
+		vfield := func(f *Frame, recv *SVal) (*SVal, types.Type) {
+			st := recv.T.Underlying().(*types.Pointer).Elem()
+			s := structOf(st)
+			for i := 0; i < s.NumFields(); i++ {
+				if s.Field(i).Name() == "v" {
+					return f.g.fieldAddr(recv, st, i), s.Field(i).Type()
 				}
 			}
-			h := f.g.heapGet(f.curState, fam, srt(f.g))
-			f.g.heapSet(f.curState, fam, srt(f.g), sStore(h, ref, v))
+			panic(unsupported("sync/atomic." + an + " has no field v"))
 		}
-		pre := "(*sync/atomic." + at.name + ")."
+		mods := func(p *Program, ms *modSet, c *ssa.CallCommon) {
+			if len(c.Args) == 0 {
+				return
+			}
+			pt, ok := c.Args[0].Type().Underlying().(*types.Pointer)
+			if !ok {
+				return
+			}
+			if s := structOf(pt.Elem()); s != nil {
+				for i := 0; i < s.NumFields(); i++ {
+					if s.Field(i).Name() == "v" {
+						p.addTypeNames(ms, s.Field(i).Type(), fmt.Sprintf("F|%s|%d", typeKey(pt.Elem()), i), 0)
+					}
+				}
+			}
+		}
+		// the stored representation of Bool is uint32; expose it as the method's value type
+		toVal := func(f *Frame, raw *SVal, rt types.Type) *SVal {
+			if kindOf(rt) == KBool && raw.K == KInt {
+				return scalar(rt, KBool, sNot(sEq(raw.Term, bvLit(big.NewInt(0), 32))))
+			}
+			return f.coerce(raw, rt)
+		}
+		fromVal := func(f *Frame, v *SVal, ft types.Type) *SVal {
+			if v.K == KBool && kindOf(ft) == KInt {
+				return scalar(ft, KInt, sIte(v.Term, bvLit(big.NewInt(1), 32), bvLit(big.NewInt(0), 32)))
+			}
+			return f.coerce(v, ft)
+		}
+		note := "sync/atomic typed values are the struct's field v read/written sequentially (linearizable operations; interference by other goroutines not modelled)"
+		pre := "(*sync/atomic." + an + ")."
 		models[pre+"Load"] = func(f *Frame, args []*SVal, rt types.Type, pos token.Pos) *SVal {
-			f.used("sync/atomic typed values as sequential cells (linearizable; interference by other goroutines not modelled)")
-			return scalar(rt, kindOf(rt), get(f, args[0].Term))
+			f.used(note)
+			fa, ft := vfield(f, args[0])
+			return toVal(f, f.g.load(f.curState, fa, ft), rt)
 		}
 		modelMods[pre+"Load"] = noMods
 		models[pre+"Store"] = func(f *Frame, args []*SVal, rt types.Type, pos token.Pos) *SVal {
-			f.used("sync/atomic typed values as sequential cells (linearizable; interference by other goroutines not modelled)")
-			set(f, args[0].Term, args[1].Term, pos)
+			f.used(note)
+			fa, ft := vfield(f, args[0])
+			f.checkStore(fa, ft, pos)
+			f.g.store(f.curState, fa, ft, fromVal(f, args[1], ft))
 			return nil
 		}
 		modelMods[pre+"Store"] = mods
 		models[pre+"Swap"] = func(f *Frame, args []*SVal, rt types.Type, pos token.Pos) *SVal {
-			f.used("sync/atomic typed values as sequential cells (linearizable; interference by other goroutines not modelled)")
-			old := f.g.define("swap.old", f.g.W.scalarSort(at.t), get(f, args[0].Term))
-			set(f, args[0].Term, args[1].Term, pos)
-			return scalar(rt, kindOf(rt), old)
+			f.used(note)
+			fa, ft := vfield(f, args[0])
+			old := f.g.nameVal("swap.old", f.g.load(f.curState, fa, ft))
+			f.checkStore(fa, ft, pos)
+			f.g.store(f.curState, fa, ft, fromVal(f, args[1], ft))
+			return toVal(f, old, rt)
 		}
 		modelMods[pre+"Swap"] = mods
-		if at.name != "Bool" {
+		if an != "Bool" {
 			models[pre+"Add"] = func(f *Frame, args []*SVal, rt types.Type, pos token.Pos) *SVal {
-				f.used("sync/atomic typed values as sequential cells (linearizable; interference by other goroutines not modelled)")
-				nv := f.g.define("add.new", f.g.W.scalarSort(at.t), sApp("bvadd", get(f, args[0].Term), args[1].Term))
-				set(f, args[0].Term, nv, pos)
-				return scalar(rt, KInt, nv)
+				f.used(note)
+				fa, ft := vfield(f, args[0])
+				cur := f.g.load(f.curState, fa, ft)
+				nv := f.g.nameVal("add.new", scalar(ft, KInt, sApp("bvadd", cur.Term, f.coerce(args[1], ft).Term)))
+				f.checkStore(fa, ft, pos)
+				f.g.store(f.curState, fa, ft, nv)
+				return f.coerce(nv, rt)
 			}
 			modelMods[pre+"Add"] = mods
 		}
 		models[pre+"CompareAndSwap"] = func(f *Frame, args []*SVal, rt types.Type, pos token.Pos) *SVal {
-			f.used("sync/atomic typed values as sequential cells (linearizable; interference by other goroutines not modelled)")
-			cur := get(f, args[0].Term)
-			ok := f.g.define("cas.ok", SBool, sEq(cur, args[1].Term))
-			set(f, args[0].Term, sIte(ok, args[2].Term, cur), pos)
+			f.used(note)
+			fa, ft := vfield(f, args[0])
+			cur := f.g.load(f.curState, fa, ft)
+			ok := f.g.define("cas.ok", SBool, sEq(cur.Term, fromVal(f, args[1], ft).Term))
+			f.checkStore(fa, ft, pos)
+			f.g.store(f.curState, fa, ft, scalar(ft, cur.K, sIte(ok, fromVal(f, args[2], ft).Term, cur.Term)))
 			return scalar(rt, KBool, ok)
 		}
 		modelMods[pre+"CompareAndSwap"] = mods
